@@ -8,7 +8,7 @@ sys.path.insert(0, HERE)
 
 def main():
     import hypothesis, pysam, gffutils, pyfaidx, yaml, pandas  # noqa
-    assert os.path.isdir("/repo/src"), "/repo missing"
+    assert os.path.isdir(os.path.join(os.environ.get("ISOQUANT_REPO", "/repo"), "src")), "repo missing"
     os.makedirs(os.path.join(HERE, "evidence"), exist_ok=True)
     os.makedirs(os.path.join(HERE, "replays"), exist_ok=True)
     from simkit import selftest
